@@ -235,7 +235,8 @@ pub fn install_panic_hook() {
             .map(|l| {
                 let f = l.file();
                 // strip everything before the crate dir so sites are stable
-                let f = f.rsplit_once("/repo/").map(|x| x.1).unwrap_or(f);
+                // (the repository may be /repo or a scratch worktree)
+                let f = f.find("multiboot2").map(|i| &f[i..]).unwrap_or(f);
                 format!("{}:{}", f, l.line())
             })
             .unwrap_or_else(|| "?".into());
